@@ -20,6 +20,7 @@ import Generated.Tables
 * `epytext params <id[:ann],…|-> <kwargs id|-> <self id|-> (P|K|T)<name>.<text>*` → `rows name/body/type … | reports kind:name …`
 * `epytext extract <existing ids|-> (i|c|v|t|o).<name|->.<text>*` → `attrs name/doc/type/shown|hidden … | missing …`   (`extract_fields`)
 * `epytext showntype <parsed_type|-> <own type fields|-> <annotation|->` → `<text|->`   (`get_parsed_type`)
+* `epytext dedent <u:line>*` → `<min indent> <initial indent> <u:dedented line>*`   (napoleon `_get_min_indent`, `_get_initial_indent`, `_dedent`)
 * `epytext property <0|1> (r|t|o).<text>.<0|1>*` → `desc=… type=… other=…`   (`_handlePropertyDef`)
 * `epytext heading <u:contents[0]> [<u:contents[1]>]` → `heading <level>` | `typo` | `para`   (`_tokenize_para`)
 * `epytext pair (d<n>|t<n>)*` → `absent` | `body=… type=…`   (return/rtype, yield/ytype handlers in source order)
@@ -303,6 +304,15 @@ def handle (args : List String) : String :=
     match Params.optNat a, Proto.natList b, Params.optNat c with
     | some pt, some own, some ann => Params.showOpt (Attrs.shownType pt own ann)
     | _, _, _ => "bad-op"
+  | "dedent" :: ls =>
+    match ls.mapM Proto.decodeStr with
+    | some lines => toString (Napoleon.getMinIndent lines) ++ " " ++ toString (Napoleon.getInitialIndent lines) ++ " " ++
+        " ".intercalate ((Napoleon.dedent lines).map Proto.encodeStr)
+    | none => "bad-op"
+  | "inherited" :: hb :: fs =>
+    match fs.mapM Property.parseField with
+    | some fields => Property.showState (Property.inheritedView (hb == "1") fields)
+    | none => "bad-op"
   | "property" :: hb :: fs =>
     match fs.mapM Property.parseField with
     | some fields => Property.showState (Property.handle (hb == "1") fields)
